@@ -1,8 +1,11 @@
 import TxdbusModel.Proofs.Msg.Main
-import TxdbusModel.Properties.C01
+import TxdbusModel.Proofs.Wire.TopLevel
+import TxdbusModel.Proofs.Wire.Normal
 /-
 C03 composed with C01: the message model instantiated with the code model of txdbus's own wire codec
-(Wire/Code.lean) as the body codec, and `C01_roundtrip` discharging the codec hypothesis of `parse_marshal`.
+(Wire/Code.lean) as the body codec, and the lemmas behind `C01_roundtrip` / `C02_decode` (Proofs/Wire/TopLevel.lean,
+Normal.lean: `Code.marshal_eq_spec`, `Code.unmarshal_eq_spec`, `Code.fromSpecFields_of_rep`) discharging the codec
+hypotheses of `parse_marshal` and `parse_foreign`.
 -/
 namespace Txdbus.Msg
 
@@ -46,7 +49,13 @@ theorem parse_marshal_wire (T : Tables) (hT : T.OK) (na : Char → Bool) (maxLen
       m'.cls = m.cls ∧ m'.serial = m.serial ∧ m'.expectReply = m.expectReply ∧ m'.autoStart = m.autoStart ∧
       (∀ x, m'.attrs x = plain (m.attrs x)) ∧
       m'.body = some (.list (Code.plainList items)) ∧ m'.rawBody = bs ∧ m.rawBody = bs := by
-  obtain ⟨hm, hu⟩ := C01_roundtrip true ts pv items vs fdl 0 bs [] [] fuel hts hitems hrep hkeys henc rfl hfuel
+  -- the two halves of `C01_roundtrip` (Properties/C01.lean), taken from the lemma files it is assembled from
+  have hm : Code.marshal fuel (renderAll ts) pv 0 true (some []) = .ok (bs.length, bs, some fdl) := by
+    have h := Code.marshal_eq_spec Code.genAlign Code.padOK_gen Code.genAlign_pos true ts pv items vs fdl fdl.length
+      0 bs fuel hitems hrep henc hfuel
+    simpa using h
+  have hu := Code.unmarshal_eq_spec Code.genAlign Code.padOK_gen Code.genAlign_pos true (some fdl) ts vs 0 bs [] []
+    (Code.plainList items) fuel hts henc rfl (Code.fromSpecFields_of_rep fdl vs true ts items 0 fdl.length hrep hkeys) hfuel
   simp only [List.nil_append, List.append_nil] at hu
   have hnonul : Main.SigNoNul (Call.methodCall a) := by
     intro sg hsg
@@ -59,13 +68,13 @@ theorem parse_marshal_wire (T : Tables) (hT : T.OK) (na : Char → Bool) (maxLen
     simp [Call.signature, hsig, strAttr]
   have hmbody : m.body = some pv := by rw [hb.body]; simp [Call.pre, hbody]
   have hC : ∀ sg, m.attrs .signature = .str .plain sg → sg ≠ [] →
-      ∃ bytes, (wireCodec fuel).marshal sg m.body (Call.methodCall a).oob = .ok (bytes, some fdl) ∧
+      ∃ bytes fds', (wireCodec fuel).marshal sg m.body (Call.methodCall a).oob = .ok (bytes, fds') ∧
         (wireCodec fuel).unmarshal sg bytes true (some fdl) = .ok (.list (Code.plainList items)) := by
     intro sg hsg _
     rw [hsigattr] at hsg
     simp only [PyVal.str.injEq, true_and] at hsg
     subst hsg
-    refine ⟨bs, ?_, ?_⟩
+    refine ⟨bs, some fdl, ?_, ?_⟩
     · simp only [wireCodec, hmbody, Option.getD_some, Call.oob, hoob, hm]
     · simp only [wireCodec, hu]
   obtain ⟨m', p1, p2, p3, p4, p5, p6, p7, p8, p9, p10⟩ :=
@@ -88,5 +97,124 @@ theorem parse_marshal_wire (T : Tables) (hT : T.OK) (na : Char → Bool) (maxLen
       exact hs3.1.symm
   exact ⟨m', p1, p2, p3, p4, p5, p6, p7, by rw [p10, hraw], hraw⟩
 
-end Txdbus.Msg
 
+/-- C01's marshalling theorem for `oobFDs=None` (what `MethodReturnMessage`, `ErrorMessage`, `SignalMessage` and a
+default `MethodCallMessage` pass): a body without descriptors (`RepFields … false …`) encodes to the specification
+bytes and the descriptor argument stays None.  Same proof as `Code.marshal_eq_spec`, with `fd = false`. -/
+theorem marshal_eq_spec_none (le : Bool) (ts : List Ty) (pv : PyVal) (items : List PyVal) (vs : List Val)
+    (lall : List PyVal) (k k' off : Nat) (bs : Bytes) (fuel : Nat)
+    (hitems : Code.topItems pv = .ok items) (hrep : Code.RepFields lall vs false ts items k k')
+    (henc : Spec.encodeAll Code.genAlign (Txdbus.endianOf le) ts vs off = some bs) (hfuel : depthAll vs ≤ fuel) :
+    Code.marshal fuel (renderAll ts) pv off le none = .ok (bs.length, bs, none) := by
+  unfold Code.marshal Code.marshalTop
+  unfold Spec.encodeAll at henc
+  have h := Code.marshalSeq_spec Code.genAlign Code.padOK_gen Code.genAlign_pos lall le vs false ts items k k' off bs fuel
+    hrep henc hfuel
+  simp only [Code.fdsArg, Bool.false_eq_true, if_false] at h
+  simp only [hitems, lazyPieces_renderAll, h]
+  simp
+
+/-- `parse_marshal` for ANY of the four constructors called without a descriptor list (`oobFDs=None`), with txdbus's
+own codec model and C01's theorems in place of the codec hypothesis: signature = rendering of WF types `ts`, body
+conforming to it without descriptors.  `parseMessage(m.rawMessage, lall)` - whatever list `lall` of received
+descriptors the protocol hands over - returns the message with the normalised body. -/
+theorem parse_marshal_wire_none (T : Tables) (hT : T.OK) (na : Char → Bool) (maxLen : Nat) (st st' : St)
+    (c : Call PyVal) (m : Msg PyVal) (hs : 1 ≤ st.nextSerial)
+    (ts : List Ty) (pv : PyVal) (items : List PyVal) (vs : List Val) (lall : List PyVal) (bs : Bytes) (fuel : Nat)
+    (hsig : c.signature = some (renderAll ts)) (hne : renderAll ts ≠ []) (hbody : c.body = some pv)
+    (hoob : c.oob = none)
+    (hts : allWF ts = true) (hitems : Code.topItems pv = .ok items)
+    (hrep : Code.RepFields lall vs false ts items 0 0) (hkeys : Code.KeysOKList items)
+    (henc : Spec.encodeAll Code.genAlign (Txdbus.endianOf true) ts vs 0 = some bs) (hfuel : depthAll vs ≤ fuel)
+    (h : construct T (wireCodec fuel) na maxLen st c = (st', .ok m)) :
+    ∃ m' : Msg PyVal, parseMessage T (wireCodec fuel) m.raw (some lall) = .ok m' ∧
+      m'.cls = m.cls ∧ m'.serial = m.serial ∧ m'.expectReply = m.expectReply ∧ m'.autoStart = m.autoStart ∧
+      (∀ x, m'.attrs x = plain (m.attrs x)) ∧
+      m'.body = some (.list (Code.plainList items)) ∧ m'.rawBody = bs ∧ m.rawBody = bs := by
+  have hm := marshal_eq_spec_none true ts pv items vs lall 0 0 0 bs fuel hitems hrep henc hfuel
+  have hu := Code.unmarshal_eq_spec Code.genAlign Code.padOK_gen Code.genAlign_pos true (some lall) ts vs 0 bs [] []
+    (Code.plainList items) fuel hts henc rfl (Code.fromSpecFields_of_rep lall vs false ts items 0 0 hrep hkeys) hfuel
+  simp only [List.nil_append, List.append_nil] at hu
+  have hnonul : Main.SigNoNul c := by
+    intro sg hsg
+    rw [hsig] at hsg
+    simp only [Option.some.injEq] at hsg
+    subst hsg
+    exact render_noNul ts
+  obtain ⟨sm, hb⟩ := construct_ok T hT (wireCodec fuel) na maxLen st st' c m h
+  have hsigattr : m.attrs .signature = .str .plain (renderAll ts) := by
+    rw [hb.attrs .signature (by decide), Main.pre_signature, hsig]; rfl
+  have hpb : c.pre.body = c.body := by cases c <;> rfl
+  have hmbody : m.body = some pv := by rw [hb.body, hpb, hbody]
+  have hC : ∀ sg, m.attrs .signature = .str .plain sg → sg ≠ [] →
+      ∃ bytes fds', (wireCodec fuel).marshal sg m.body c.oob = .ok (bytes, fds') ∧
+        (wireCodec fuel).unmarshal sg bytes true (some lall) = .ok (.list (Code.plainList items)) := by
+    intro sg hsg _
+    rw [hsigattr] at hsg
+    simp only [PyVal.str.injEq, true_and] at hsg
+    subst hsg
+    refine ⟨bs, none, ?_, ?_⟩
+    · simp only [wireCodec, hmbody, Option.getD_some, hoob, hm]
+    · simp only [wireCodec, hu]
+  obtain ⟨m', p1, p2, p3, p4, p5, p6, p7, p8, p9, p10⟩ :=
+    Main.parse_marshal T hT (wireCodec fuel) na maxLen st st' c m hs hnonul h (some lall)
+      (.list (Code.plainList items)) hC
+  have htr : truthy (m.attrs .signature) = true := by
+    rw [hsigattr]
+    cases hr : renderAll ts with
+    | nil => exact absurd hr hne
+    | cons ch cs => simp [truthy]
+  rw [htr, if_pos rfl] at p7
+  have hraw : m.rawBody = bs := by
+    rcases hb.bodyCase with ⟨ht, _, _⟩ | ⟨sg', fds', hs1, _, hs3, _⟩
+    · rw [← hb.attrs .signature (by decide), htr] at ht; cases ht
+    · rw [← hb.attrs .signature (by decide), hsigattr] at hs1
+      simp only [PyVal.str.injEq, true_and] at hs1
+      subst hs1
+      rw [hpb, hbody, hoob] at hs3
+      simp only [wireCodec, Option.getD_some, hm, Except.ok.injEq, Prod.mk.injEq] at hs3
+      exact hs3.1.symm
+  exact ⟨m', p1, p2, p3, p4, p5, p6, p7, by rw [p10, hraw], hraw⟩
+
+/-- `parse_foreign` with txdbus's own codec model and C02's decoder theorem in place of the codec hypothesis: the body
+of the foreign message is the specification encoding, in the message's byte order, of values `vs` of WF types `ts`,
+and the SIGNATURE field says `ts`.  The parsed body is the decoding `values` of `vs` (`Code.fromSpecFields`). -/
+theorem parse_foreign_wire (T : Tables) (hT : T.OK) (w : SpecMsg) (hw : w.valid = true)
+    (cls : MsgClass) (hcls : w.mtype = T.messageType cls)
+    (known extra : List Field) (hperm : w.fields.Perm (known ++ extra))
+    (hextra : ∀ f ∈ extra, lookupAttr T f.1 = none)
+    (hknown : (known.map (fun f => lookupAttr T f.1)).Nodup)
+    (fds : Option (List PyVal)) (hfd : ∀ f ∈ w.fields, f.2.ty = .h → fds ≠ none)
+    (ts : List Ty) (vs : List Val) (values : List PyVal) (fuel : Nat)
+    (hsigf : Main.fieldFor T known .signature = some (.text .g (renderAll ts))) (hne : renderAll ts ≠ [])
+    (hts : allWF ts = true)
+    (henc : Spec.encodeAll Code.genAlign w.endian ts vs 0 = some w.body)
+    (hval : Code.fromSpecFields fds vs ts = some values) (hfuel : depthAll vs ≤ fuel) :
+    ∃ m' : Msg PyVal, parseMessage T (wireCodec fuel) (Spec.encodeMsg w) fds = .ok m' ∧
+      m'.cls = cls ∧ m'.serial = w.serial ∧
+      m'.expectReply = decide (w.flags % 2 = 0) ∧ m'.autoStart = decide (w.flags / 2 % 2 = 0) ∧
+      (∀ a, m'.attrs a = match Main.fieldFor T known a with
+                         | some hv => pyOf fds hv
+                         | none => .none) ∧
+      m'.body = some (.list values) ∧ m'.rawBody = w.body := by
+  have hend : Txdbus.endianOf (decide (w.endian = .little)) = w.endian := by
+    cases w.endian <;> rfl
+  have hu := Code.unmarshal_eq_spec Code.genAlign Code.padOK_gen Code.genAlign_pos (decide (w.endian = .little)) fds ts vs 0
+    w.body [] [] values fuel hts (by rw [hend]; exact henc) rfl hval hfuel
+  simp only [List.nil_append, List.append_nil] at hu
+  have hC : ∀ sg, Main.fieldFor T known .signature = some (.text .g sg) → sg ≠ [] →
+      (wireCodec fuel).unmarshal sg w.body (decide (w.endian = .little)) fds = .ok (.list values) := by
+    intro sg hsg _
+    rw [hsigf] at hsg
+    simp only [Option.some.injEq, HVal.text.injEq, true_and] at hsg
+    subst hsg
+    simp only [wireCodec, hu]
+  obtain ⟨m', p1, p2, p3, p4, p5, p6, p7, p8, _⟩ :=
+    Main.parse_foreign T hT (wireCodec fuel) w hw cls hcls known extra hperm hextra hknown fds hfd (.list values) hC
+  refine ⟨m', p1, p2, p3, p4, p5, p6, ?_, p8⟩
+  rw [p7, hsigf]
+  cases hr : renderAll ts with
+  | nil => exact absurd hr hne
+  | cons ch cs => rfl
+
+end Txdbus.Msg
